@@ -6,6 +6,7 @@ package main
 
 import (
 	"go/token"
+	"go/types"
 
 	"golang.org/x/tools/go/ssa"
 )
@@ -19,6 +20,34 @@ func (sl *Slicer) rootOf(v ssa.Value) ssa.Value {
 		switch x := v.(type) {
 		case *ssa.Parameter:
 			cs := sl.callers[x.Parent()]
+			if len(cs) > 1 && len(cs) <= 6 && sl.rootDepth < 4 {
+				// several callers that all pass the same thing (a `fail(err)` method of the session object
+				// called from three places): that thing
+				idx := paramIndex(x)
+				var common ssa.Value
+				same := idx >= 0
+				sl.rootDepth++
+				for _, c := range cs {
+					args := c.Common().Args
+					if idx >= len(args) || len(args) != len(x.Parent().Params) {
+						same = false
+						break
+					}
+					r := sl.rootOf(args[idx])
+					if common != nil && r != common {
+						same = false
+						break
+					}
+					common = r
+				}
+				sl.rootDepth--
+				if same && common != nil {
+					if _, isP := common.(*ssa.Parameter); !isP || common != v {
+						return common
+					}
+				}
+				return v
+			}
 			if len(cs) != 1 {
 				return v
 			}
@@ -33,6 +62,16 @@ func (sl *Slicer) rootOf(v ssa.Value) ssa.Value {
 			if x.Op != token.MUL {
 				return v
 			}
+			// a field of a session object — a struct built once by a composite literal, the field never
+			// written again — read through a method's receiver or a captured pointer: the value the
+			// literal gave it (the field plays the part of a captured variable)
+			if fa, ok := x.X.(*ssa.FieldAddr); ok {
+				if fv := sl.sessionFieldValue(fa); fv != nil {
+					v = fv
+					continue
+				}
+				return v
+			}
 			cell := cellOf(x.X)
 			if cell == nil {
 				return v
@@ -43,6 +82,13 @@ func (sl *Slicer) rootOf(v ssa.Value) ssa.Value {
 			}
 			v = sts[0].Val
 			continue
+		case *ssa.Call, *ssa.Extract:
+			// what a transparent constructor / helper hands back (`report := newSignReport()`)
+			if r := resultOf(v); r != v {
+				v = r
+				continue
+			}
+			return v
 		case *ssa.FreeVar:
 			// a captured value (not a cell)
 			fn := x.Parent()
@@ -64,9 +110,65 @@ func (sl *Slicer) rootOf(v ssa.Value) ssa.Value {
 	return v
 }
 
+// sessionFieldValue: fa addresses field f of an object that rootOf traces to a composite literal of an
+// unexported own struct type in which f is set; nothing else in the package stores to f.
+func (sl *Slicer) sessionFieldValue(fa *ssa.FieldAddr) ssa.Value {
+	f := fieldOfAddr(fa)
+	if f.Exported() || f.Pkg() == nil || !ownPkgPath(f.Pkg().Path()) {
+		return nil
+	}
+	if sl.sessDepth > 6 {
+		return nil
+	}
+	sl.sessDepth++
+	base := sl.rootOf(fa.X)
+	sl.sessDepth--
+	alloc, ok := base.(*ssa.Alloc)
+	if !ok {
+		return nil
+	}
+	if pt, isP := alloc.Type().Underlying().(*types.Pointer); !isP || namedOf(pt.Elem()) == nil || namedOf(pt.Elem()).Obj().Exported() {
+		return nil
+	}
+	val, ok := structLitFieldValue(alloc, f)
+	if !ok {
+		return nil
+	}
+	// no other store to the field anywhere in the analysed package(s)
+	n := 0
+	for _, fn := range sl.fns {
+		n += len(storesToField([]*ssa.Function{fn}, f))
+	}
+	if n != 1 {
+		return nil
+	}
+	return val
+}
+
 func (sl *Slicer) sameRoot(a, b ssa.Value) bool {
 	ra, rb := sl.rootOf(a), sl.rootOf(b)
-	return ra == rb
+	if ra == rb {
+		return true
+	}
+	// two reads of one slot of one session object: a field that is assigned exactly once in the program
+	// (after the literal, e.g. `r.syncTopic = hash(…)`), read through receivers that trace to one object
+	la, okA := ra.(*ssa.UnOp)
+	lb, okB := rb.(*ssa.UnOp)
+	if !okA || !okB || la.Op != token.MUL || lb.Op != token.MUL {
+		return false
+	}
+	fa, okA := la.X.(*ssa.FieldAddr)
+	fb, okB := lb.X.(*ssa.FieldAddr)
+	if !okA || !okB || fieldOfAddr(fa) != fieldOfAddr(fb) {
+		return false
+	}
+	f := fieldOfAddr(fa)
+	if f.Exported() || fieldStoreCount[f] != 1 {
+		return false
+	}
+	oa, ob := sl.rootOf(fa.X), sl.rootOf(fb.X)
+	_, isAlloc := oa.(*ssa.Alloc)
+	return isAlloc && oa == ob
 }
 
 // calleeOfInstr resolves a call/defer/go to a function: static callee, closure literal, or local closure variable.
@@ -213,27 +315,32 @@ func syncNilEdgeSkipper(sl *Slicer, fn *ssa.Function, contOK func(cont *ssa.Func
 		succ int
 	}
 	skip := map[edge]bool{}
-	for _, in := range instrsOf(fn) {
-		cl, ok := in.(*ssa.Call)
-		if !ok || !invokesMethod(&cl.Call, "Synchronize") || len(cl.Call.Args) < 2 {
-			continue
-		}
-		cont := sl.localClosureCallee(cl.Call.Args[1])
-		if cont == nil || !contOK(cont) {
-			continue
-		}
-		for _, b := range fn.Blocks {
-			iff, ok := b.Instrs[len(b.Instrs)-1].(*ssa.If)
-			if !ok {
+	for _, g := range deepFuncs(fn) { // the function with the helpers inlined into it
+		for _, in := range instrsOf(g) {
+			cl, ok := in.(*ssa.Call)
+			if !ok || !invokesMethod(&cl.Call, "Synchronize") || len(cl.Call.Args) < 2 {
 				continue
 			}
-			f := factOf(Guard{iff, true})
-			if (f.Op == token.NEQ || f.Op == token.EQL) && isNilConst(f.Y) && errValueOf(f.X) == ssa.Value(cl) {
-				nilSucc := 1
-				if f.Op == token.EQL {
-					nilSucc = 0
+			cont := sl.localClosureCallee(cl.Call.Args[1])
+			if cont == nil || !contOK(cont) {
+				continue
+			}
+			for _, b := range g.Blocks {
+				if len(b.Instrs) == 0 {
+					continue
 				}
-				skip[edge{b, nilSucc}] = true
+				iff, ok := b.Instrs[len(b.Instrs)-1].(*ssa.If)
+				if !ok {
+					continue
+				}
+				f := factOf(Guard{iff, true})
+				if (f.Op == token.NEQ || f.Op == token.EQL) && isNilConst(f.Y) && errValueOf(f.X) == ssa.Value(cl) {
+					nilSucc := 1
+					if f.Op == token.EQL {
+						nilSucc = 0
+					}
+					skip[edge{b, nilSucc}] = true
+				}
 			}
 		}
 	}
